@@ -2,14 +2,14 @@
 # tools/evalmut.sh <slot> <PROP> <k> "<check ids>" — confirm mutation /tmp/mut/<PROP>/m<k> (suite included), store it
 # under /verif/seeded/<PROP>-m<k>/ when confirmed, run the listed checks against it in scratch slot <slot>.
 slot=$1; P=$2; k=$3; ids=$4
-src=/tmp/mut/$P/m$k
-out=/verif/seeded/$P-m$k
+src=${MUTBASE:-/tmp/mut}/$P/m$k
+out=/verif/seeded/$P-${MUTTAG:-m}$k
 mkdir -p $out
-MCONFIRM=/tmp/mconfirm$slot /verif/tools/confirm_mut.py $src --suite > $out/confirm.json 2>/dev/null
+if ! grep -q '"confirmed": true' $out/confirm.json 2>/dev/null; then MCONFIRM=/tmp/mconfirm$slot /verif/tools/confirm_mut.py $src --suite > $out/confirm.json 2>/dev/null; fi
 cp $src/patch.diff $out/ 2>/dev/null; cp $src/demo_test.go $out/ 2>/dev/null; cp $src/meta.json $out/meta.agent.json 2>/dev/null
 if grep -q '"confirmed": true' $out/confirm.json; then
   MUT_SCRATCH=/tmp/mverif$slot /verif/tools/runmut.sh $src/patch.diff $ids > $out/checks.txt 2>&1
 else
   echo "not confirmed" > $out/checks.txt
 fi
-echo "done $P-m$k: $(grep -o '"confirmed": [a-z]*' $out/confirm.json) | $(grep -c VIOLATION $out/checks.txt) violation lines"
+echo "done $P-${MUTTAG:-m}$k: $(grep -o '"confirmed": [a-z]*' $out/confirm.json) | $(grep -c VIOLATION $out/checks.txt) violation lines"
